@@ -215,6 +215,15 @@ Fixpoint assoc_set (l : list (name * dval)) (k : name) (v : dval) : list (name *
   | (k', v') :: r => if name_eqb k k' then (k', v) :: r else (k', v') :: assoc_set r k v
   end.
 
+(* the Go fields a class definition binds, in wire order, and whether one is bound twice *)
+Fixpoint bound_names (gfields : list (name * gtype)) (wire : list name) : list name :=
+  match wire with
+  | [] => []
+  | w :: ws => match find_field gfields w with Some (gn, _) => gn :: bound_names gfields ws | None => bound_names gfields ws end
+  end.
+Fixpoint has_dup (l : list name) : bool :=
+  match l with [] => false | x :: r => existsb (name_eqb x) r || has_dup r end.
+
 (* map keys: comparable decoded values *)
 Definition dkey_eqb (a b : dval) : bool :=
   match a, b with
@@ -535,6 +544,10 @@ Section Step.
     match te_lookup te n with
     | None => Err ECodec
     | Some gfields =>
+      (* a class definition in which two wire names bind to one Go field (s and S): the second
+         assignment of a null or empty value leaves the first one in place in the code (readField
+         skips the Set call); that corner is outside the modelled fragment *)
+      if has_dup (bound_names gfields wire) then Unmodelled else
       let idx := length (dheap st) in
       let zeros := map (fun p => (fst p, zero te (snd p))) gfields in
       do (x, st1) <- rfs gfields wire zeros (heap_push st (RObj n None)) bs ;; let '(fs, r) := x in
